@@ -33,7 +33,7 @@ ASSUMPTIONS = [
     "a sentinel still present after 20 s while the tracker is alive counts as 'not deleted at zero'; a dead tracker as 'tracker stopped'",
 ]
 SHARDS = {"quick": 10, "thorough": 14}
-FLOORS = {"quick": {"e2e_runs": 6, "scripts": 120, "requests_checked": 1500, "malformed_requests": 200, "clients_killed": 40, "deletions_at_zero": 150},
+FLOORS = {"quick": {"e2e_runs": 6, "scripts": 120, "requests_checked": 1500, "malformed_requests": 200, "clients_killed": 40, "deletions_at_zero": 100},
           "thorough": {"e2e_runs": 50, "scripts": 2500, "requests_checked": 40000, "malformed_requests": 4000, "clients_killed": 800, "deletions_at_zero": 3000}}
 CLIENT = os.path.join(harness.VERIF, "checks", "c20_client.py")
 
